@@ -14,3 +14,4 @@ import Iggy.Props.C20
 #print axioms Iggy.Props.C20.no_stall_two_polls
 #print axioms Iggy.Props.C20.no_skip_across_incarnations
 #print axioms Iggy.Props.C20.yields_schedule_independent
+#print axioms Iggy.Props.C20.rewound_offset_recovers
